@@ -330,3 +330,14 @@ define i32 @h(i32 %a, i32 %0, i32 %b, i32 %1) {
   %3 = add i32 %0, %1
   ret i32 %3
 }
+;;; ATOM func/uselistorder-of-blockaddress-in-function
+define i8* @f(i1 %c) {
+entry:
+  br i1 %c, label %bb, label %bb2
+bb:
+  ret i8* blockaddress(@f, %bb)
+bb2:
+  %p = select i1 %c, i8* blockaddress(@f, %bb), i8* null
+  ret i8* %p
+  uselistorder i8* blockaddress(@f, %bb), { 1, 0 }
+}
